@@ -74,7 +74,37 @@ def evaluate(t, b, X, vals):
     return out
 
 
-bad = n = 0
+bad = n = unmodelled = 0
+
+
+def lazy(name, fa, fr, tol=1e-10):
+    """both sides as thunks: raising must agree as well (PyExc of the model vs any exception of torch)"""
+    global bad, n
+    from pwa.errors import PyExc
+    from pwa.errors import AnalysisError
+    try:
+        a = fa()
+        ea = None
+    except PyExc as e:
+        a, ea = None, e
+    except AnalysisError as e:
+        global unmodelled
+        unmodelled += 1          # the model declines (exit 2 in a check): never a wrong answer
+        return
+    try:
+        r = fr()
+        er = None
+    except Exception as e:
+        r, er = None, e
+    if (ea is None) != (er is None):
+        n += 1
+        bad += 1
+        print('MISMATCH raising', name, 'model:', ea, 'torch:', str(er)[:80])
+        return
+    if ea is not None:
+        n += 1
+        return
+    check(name, a, r, tol)
 
 
 def check(name, abstract, real, tol=1e-10):
@@ -85,7 +115,7 @@ def check(name, abstract, real, tol=1e-10):
         print('MISMATCH', name, abstract.shape, tuple(real.shape))
 
 
-for (h, w) in ((7, 9), (4, 4), (10, 5)):
+for (h, w) in ((7, 9), (4, 4), (10, 5), (1, 6), (2, 2), (2, 1)):
     nb, c = 2, 3
     b, x = base(nb, c, h, w)
     X = rng.standard_normal((nb, c, h, w))
@@ -117,9 +147,9 @@ for (h, w) in ((7, 9), (4, 4), (10, 5)):
     # conv_transpose2d
     for kh, kw, s, p in ((4, 1, (2, 1), (2, 0)), (1, 6, (1, 2), (0, 4)), (2, 1, (2, 1), 0)):
         wS, wn, vals = sym_filter((c, 1, kh, kw), 'g')
-        ya = ops.conv_transpose2d(x, wS, None, s, p, 0, c)
-        yr = F.conv_transpose2d(Xt, torch.tensor(wn), None, s, p, 0, c)
-        check('conv_transpose2d %s' % ((kh, kw, s, p),), evaluate(ya, b, X, vals), yr)
+        lazy('conv_transpose2d %s' % ((kh, kw, s, p),),
+             lambda: evaluate(ops.conv_transpose2d(x, wS, None, s, p, 0, c), b, X, vals),
+             lambda: F.conv_transpose2d(Xt, torch.tensor(wn), None, s, p, 0, c))
     # pad
     for mode in ('constant', 'reflect', 'replicate', 'circular'):
         for pad in ((1, 2, 0, 0), (0, 0, 2, 1), (2, 1, 1, 3), (0, 1, 0, 1)):
@@ -142,36 +172,52 @@ for (h, w) in ((7, 9), (4, 4), (10, 5)):
     check('interpolate', evaluate(ops.interpolate(x, scale_factor=2, mode='nearest'), b, X, {}),
           F.interpolate(Xt, scale_factor=2, mode='nearest'))
     # indexing, cat, stack + view interleave, permute, reshape, flip, roll, strided stores
-    check('slice', evaluate(x[:, :, 1::2, :-1], b, X, {}), Xt[:, :, 1::2, :-1])
+    lazy('slice', lambda: evaluate(x[:, :, 1::2, :-1], b, X, {}), lambda: Xt[:, :, 1::2, :-1])
     idx = np.array([0, 0, 1, h - 1, 2])
-    check('gather', evaluate(x[:, :, idx], b, X, {}), Xt[:, :, idx])
-    check('gather2', evaluate(x[:, :, :, np.array([w - 1, 0, 1])], b, X, {}), Xt[:, :, :, [w - 1, 0, 1]])
-    check('cat S', evaluate(ops.cat((x, x[:, :, -1:]), 2), b, X, {}), torch.cat((Xt, Xt[:, :, -1:]), 2))
-    check('cat E', evaluate(ops.cat((x[:, :1], x), 1), b, X, {}), torch.cat((Xt[:, :1], Xt), 1))
-    a0, a1 = x[:, :, 0::2][:, :, :h // 2], x[:, :, 1::2][:, :, :h // 2]
-    r0, r1 = Xt[:, :, 0::2][:, :, :h // 2], Xt[:, :, 1::2][:, :, :h // 2]
-    check('stack-view rows', evaluate(ops.reshape(ops.stack((a1, a0), -2), [nb, c, 2 * (h // 2), w], True), b, X, {}),
-          torch.stack((r1, r0), -2).view(nb, c, 2 * (h // 2), w))
-    b0, b1 = x[:, :, :, 0::2][:, :, :, :w // 2], x[:, :, :, 1::2][:, :, :, :w // 2]
-    s0, s1 = Xt[:, :, :, 0::2][:, :, :, :w // 2], Xt[:, :, :, 1::2][:, :, :, :w // 2]
-    check('stack-view cols', evaluate(ops.reshape(ops.stack((b0, b1), -1), [nb, c, h, 2 * (w // 2)], True), b, X, {}),
-          torch.stack((s0, s1), -1).view(nb, c, h, 2 * (w // 2)))
-    check('reshape bands', evaluate(ops.reshape(ops.cat((x, x), 1), [nb, -1, 2, h, w]), b, X, {}),
-          torch.cat((Xt, Xt), 1).reshape(nb, -1, 2, h, w))
-    L = Libs()
-    check('flip', evaluate(L._torch_flip(x, [3]), b, X, {}), torch.flip(Xt, [3]))
-    check('roll', evaluate(L._torch_roll(x, -2, 2), b, X, {}), torch.roll(Xt, -2, 2))
-    y = ops.zeros([nb, c, 2 * h, 2 * w], 'in')
-    Y = torch.zeros(nb, c, 2 * h, 2 * w, dtype=torch.float64)
-    y[:, :, ::2, 1::2] = x
-    Y[:, :, ::2, 1::2] = Xt
-    y[:, :, 1::2, ::2] = x * 2
-    Y[:, :, 1::2, ::2] = Xt * 2
-    check('strided store', evaluate(y, b, X, {}), Y)
-    z = ops.cat((x, x), 2)
-    Z = torch.cat((Xt, Xt), 2)
-    z[:, :, :2] = z[:, :, :2] + z[:, :, h:h + 2]
-    Z[:, :, :2] = Z[:, :, :2] + Z[:, :, h:h + 2]
-    check('fold store', evaluate(z, b, X, {}), Z)
-    check('arith', evaluate((x - x[:, :, :, :] * 3) / np.sqrt(2), b, X, {}), (Xt - Xt * 3) / np.sqrt(2))
-print('primitive cases', n, 'mismatches', bad)
+    lazy('gather', lambda: evaluate(x[:, :, idx], b, X, {}), lambda: Xt[:, :, idx])
+    lazy('gather2', lambda: evaluate(x[:, :, :, np.array([w - 1, 0, 1])], b, X, {}), lambda: Xt[:, :, :, [w - 1, 0, 1]])
+    lazy('cat S', lambda: evaluate(ops.cat((x, x[:, :, -1:]), 2), b, X, {}), lambda: torch.cat((Xt, Xt[:, :, -1:]), 2))
+    lazy('cat E', lambda: evaluate(ops.cat((x[:, :1], x), 1), b, X, {}), lambda: torch.cat((Xt[:, :1], Xt), 1))
+    if h >= 4 and w >= 4:            # interleaves / strided stores need non-degenerate extents
+        a0, a1 = x[:, :, 0::2][:, :, :h // 2], x[:, :, 1::2][:, :, :h // 2]
+        r0, r1 = Xt[:, :, 0::2][:, :, :h // 2], Xt[:, :, 1::2][:, :, :h // 2]
+        check('stack-view rows', evaluate(ops.reshape(ops.stack((a1, a0), -2), [nb, c, 2 * (h // 2), w], True), b, X, {}),
+              torch.stack((r1, r0), -2).view(nb, c, 2 * (h // 2), w))
+        b0, b1 = x[:, :, :, 0::2][:, :, :, :w // 2], x[:, :, :, 1::2][:, :, :, :w // 2]
+        s0, s1 = Xt[:, :, :, 0::2][:, :, :, :w // 2], Xt[:, :, :, 1::2][:, :, :, :w // 2]
+        check('stack-view cols', evaluate(ops.reshape(ops.stack((b0, b1), -1), [nb, c, h, 2 * (w // 2)], True), b, X, {}),
+              torch.stack((s0, s1), -1).view(nb, c, h, 2 * (w // 2)))
+        check('reshape bands', evaluate(ops.reshape(ops.cat((x, x), 1), [nb, -1, 2, h, w]), b, X, {}),
+              torch.cat((Xt, Xt), 1).reshape(nb, -1, 2, h, w))
+        L = Libs()
+        lazy('flip', lambda: evaluate(L._torch_flip(x, [3]), b, X, {}), lambda: torch.flip(Xt, [3]))
+        lazy('roll', lambda: evaluate(L._torch_roll(x, -2, 2), b, X, {}), lambda: torch.roll(Xt, -2, 2))
+        y = ops.zeros([nb, c, 2 * h, 2 * w], 'in')
+        Y = torch.zeros(nb, c, 2 * h, 2 * w, dtype=torch.float64)
+        y[:, :, ::2, 1::2] = x
+        Y[:, :, ::2, 1::2] = Xt
+        y[:, :, 1::2, ::2] = x * 2
+        Y[:, :, 1::2, ::2] = Xt * 2
+        lazy('strided store', lambda: evaluate(y, b, X, {}), lambda: Y)
+        z = ops.cat((x, x), 2)
+        Z = torch.cat((Xt, Xt), 2)
+        z[:, :, :2] = z[:, :, :2] + z[:, :, h:h + 2]
+        Z[:, :, :2] = Z[:, :, :2] + Z[:, :, h:h + 2]
+        lazy('fold store', lambda: evaluate(z, b, X, {}), lambda: Z)
+        lazy('arith', lambda: evaluate((x - x[:, :, :, :] * 3) / np.sqrt(2), b, X, {}), lambda: (Xt - Xt * 3) / np.sqrt(2))
+    # unit-axis broadcasting, expand, linear reductions over enumerated dims, tile, functional spellings
+    lazy('bcast unit rows', lambda: evaluate(x + x[:, :, :1], b, X, {}), lambda: Xt + Xt[:, :, :1])
+    lazy('bcast unit both', lambda: evaluate(x[:, :, :, :1] - x[:, :, :1], b, X, {}), lambda: Xt[:, :, :, :1] - Xt[:, :, :1])
+    from pwa import tensor_api as TA
+    lazy('expand unit S', lambda: evaluate(TA._expand(L, x[:, :, :1], -1, -1, 3, -1), b, X, {}), lambda: Xt[:, :, :1].expand(-1, -1, 3, -1))
+    lazy('sum over stack', lambda: evaluate(TA._METHODS['sum'](L, ops.stack((x, x * 2), 0), 0), b, X, {}), lambda: torch.stack((Xt, Xt * 2), 0).sum(0))
+    lazy('mean over channels keepdim', lambda: evaluate(TA._METHODS['mean'](L, x, 1, True), b, X, {}), lambda: Xt.mean(1, keepdim=True))
+    lazy('tile', lambda: evaluate(L._tile(x, [1, 1, 2, 1]), b, X, {}), lambda: torch.tile(Xt, (1, 1, 2, 1)))
+    y2 = ops.zeros([nb, c, h, w], 'in'); Y2 = torch.zeros(nb, c, h, w, dtype=torch.float64)
+    TA.get(L, y2, 'add_')(x, alpha=3); Y2.add_(Xt, alpha=3)
+    lazy('add_ alpha', lambda: evaluate(y2, b, X, {}), lambda: Y2)
+    TA.get(L, y2, 'copy_')(x[:, :, :1]); Y2.copy_(Xt[:, :, :1])
+    lazy('copy_ broadcast', lambda: evaluate(y2, b, X, {}), lambda: Y2)
+    check('unflatten-movedim-reshape', evaluate(ops.reshape(L._movedim(ops.reshape(ops.cat((x, x * 2), 1), [nb, 2, c, h, w]), 1, 3), [nb, c, 2 * h, w]), b, X, {}),
+          torch.cat((Xt, Xt * 2), 1).unflatten(1, (2, c)).movedim(1, 3).reshape(nb, c, 2 * h, w))
+print('primitive cases', n, 'mismatches', bad, 'declined by the model', unmodelled)
